@@ -362,10 +362,40 @@ def run_c11(prop, tier):
                     elif os.path.exists(p):
                         os.unlink(p)
                     shutil.move(sv, p)
+            # the same packs inside one concatenated file: whatever happens to the files at their recorded locations
+            # (removed, a directory, a different pack), nothing is unavailable
+            if cfiles:
+                files = loose_files(w)
+                out = "cat.jbk"
+                pcat = os.path.join(w.dir, out)
+                t = R.harness([{"kind": "tool", "id": "cat", "op": "concat", "inputs": [os.path.join(w.dir, f) for f in [w.entry] + [f for f in files if f != w.entry]], "out": pcat}], "cat")["cat"]
+                te = next((e for e in t["events"] if e["ev"] == "Tool"), None)
+                if te and te["res"] == "ok":
+                    w.names[out] = "cat"
+                    for what in ("removed", "dir", "other"):
+                        saved = {}
+                        for sym in syms:
+                            p = os.path.join(w.dir, cfiles[sym])
+                            saved[p] = p + ".saved"
+                            shutil.move(p, p + ".saved")
+                            if what == "dir":
+                                os.makedirs(p)
+                            elif what == "other":
+                                shutil.copy(os.path.join(wo.dir, ofiles[sym]), p)
+                        R.config(w, out, {"mode": mode, "op": "concat+faults", "files": {sym: what for sym in syms}})
+                        for p, sv in saved.items():
+                            if os.path.isdir(p):
+                                shutil.rmtree(p)
+                            elif os.path.exists(p):
+                                os.unlink(p)
+                            shutil.move(sv, p)
+                    os.unlink(pcat)
+                    w.names.pop(out, None)
         C.log("[%s] container %d done %.0fs (%d configurations)" % (prop, ci, time.time() - rep.t0, R.n))
     R.finish()
     rep.cov["rule"] = ("containers with 3 content packs in every packaging; every content-pack file independently kept / removed / replaced by a directory / replaced by a "
-                       "different valid pack (all 4^k combinations; quick: single faults + 24 sampled); every entry and every content is read; distinct = different configuration")
+                       "different valid pack (all 4^k combinations; quick: single faults + 24 sampled), and the same faults applied to the files at the recorded locations once every pack "
+                       "is also inside one concatenated file (nothing is unavailable then); every entry and every content is read; distinct = different configuration")
     rep.cov["exhaustive"] = (tier == "thorough")
     return rep.finish()
 
